@@ -906,3 +906,41 @@ replay_proof! {
         }
     }
 }
+
+// the same recovery at a non-zero journal offset (older chunks purged away):
+// the cut-back length is local to the file, the fresh chunk's name is global
+// @harness name=c05_torn_tail_at_offset prop=C05 tier=quick timeout=1200 fs=512
+replay_proof! {
+    unwind = 10, crc = off,
+    fn c05_torn_tail_at_offset() {
+        let mut m = empty_model();
+        let pg = any_id();
+        m.purged = Some(pg);
+        m.last = Some(pg);
+        let base: u64 = 1000;
+        let mut im = Img::new(0, base);
+        im.state(None, m.last, None, m.purged, None);
+        let a = any_id();
+        kani::assume(m.append_ok(a));
+        let p = P::new(1, kani::any());
+        let e1 = im.append(a, p);
+        m.do_append(a, p);
+        im.commit(kani::any());
+        im.commit_len();
+        gfs::fs().files[0].len = (e1 + 4) as u64;
+        match open(replay_config(None)) {
+            Some(rl) => {
+                assert_matches(&rl, &m);
+                let f = &gfs::fs().files[0];
+                assert!(f.len == e1 as u64 && f.n_set_len == 1, "torn tail not cut back to the file-local end of the last complete record");
+                assert!(rl.wal.closed.len() == 1 && rl.wal.open.chunk.global_start() == base + e1 as u64, "fresh chunk is not named by the global offset of the recovered end");
+                assert!(gfs::find_chunk(base + e1 as u64).is_some(), "no file created under the global offset of the recovered end");
+                assert_open_file_consistent(&rl);
+                assert!(rl.on_disk_size() == rl.wal.open.chunk.global_end() - base, "on_disk_size after recovery");
+                kani::cover!(true, "recovered at a non-zero offset");
+                core::mem::forget(rl);
+            }
+            None => assert!(false, "open failed on a crash image with a torn tail"),
+        }
+    }
+}
